@@ -117,6 +117,7 @@ type ArrayNode struct {
 type HashNode struct {
 	ExpressionNode
 	items map[Node]Node
+	order []Node // keys in source order, so that evaluation does not depend on map iteration
 }
 
 // ConditionalNode represents ternary operator (condition ? true : false)
